@@ -298,7 +298,7 @@ def _blocks(fn):
     yield from rec(fn.body, ())
 
 
-def inline_unknown_temporaries(fn, known_sigs):
+def inline_unknown_temporaries(fn, known_sigs, known_names=frozenset()):
     """Inline every local that (1) has no counterpart in the reference tree (its signature is not among `known_sigs`), (2) is
     bound exactly once, by `t = E` with E pure, and read exactly once, later, and (3) none of the names E mentions can be written
     between the definition and the use (for a use inside a loop that does not contain the definition: anywhere in that loop).
@@ -317,8 +317,8 @@ def inline_unknown_temporaries(fn, known_sigs):
                 if not (isinstance(st, ast.Assign) and len(st.targets) == 1 and isinstance(st.targets[0], ast.Name)):
                     continue
                 t = st.targets[0].id
-                if t in params or t not in sg or sg[t][0] in known_sigs:
-                    continue
+                if t in params or t not in sg or sg[t][0] in known_sigs or t in known_names:
+                    continue              # a local the reference tree has (by structure or by name) keeps its statement
                 if len(stores.get(t, [])) != 1 or not loads.get(t) or not _pure(st.value):
                     continue
                 if len(loads[t]) > 1:
@@ -358,6 +358,7 @@ def inline_unknown_temporaries(fn, known_sigs):
                             return ast.copy_location(copy.deepcopy(st.value), n)
                         return n
                 R().visit(holder)
+                _merge_row_subscripts(fn, holder)
                 body.pop(i)
                 done.append(t)
                 changed = True
@@ -409,11 +410,25 @@ def _inline_multi(fn, body, i, st, t, uses):
                 continue
         if isinstance(par, ast.Return):
             continue
+        if isinstance(par, ast.Assign) and par.value is u and all(isinstance(tg, ast.Subscript) for tg in par.targets):
+            continue              # element store: the data is copied into the slot, no alias is created
         return False
     mentioned = {m.id for m in ast.walk(st.value) if isinstance(m, ast.Name)}
-    if mentioned & _written_names(rest):
-        return False
+    # writes that can happen between the definition and a use.  A simple statement evaluates its right-hand side before it
+    # stores, so the targets of the statement that holds a use only count for uses in LATER statements.
     ids = {id(u) for u in uses}
+    holders = [k for k, later in enumerate(rest) if any(id(m) in ids for m in ast.walk(later))]
+    last = max(holders)
+    written = set()
+    for k, later in enumerate(rest[:last + 1]):
+        simple = isinstance(later, (ast.Assign, ast.AugAssign, ast.Expr, ast.Return))
+        if k == last and simple and k in holders:
+            calls = [ast.Expr(value=c) for c in ast.walk(later) if isinstance(c, ast.Call)]
+            written |= _written_names(calls) - {n.id for n in ast.walk(later) if isinstance(n, ast.Name) and isinstance(n.ctx, ast.Store)}
+        else:
+            written |= _written_names([later])
+    if mentioned & written:
+        return False
 
     class R(ast.NodeTransformer):
         def visit_Name(self, n):
@@ -422,10 +437,11 @@ def _inline_multi(fn, body, i, st, t, uses):
             return n
     for later in rest:
         R().visit(later)
+        _merge_row_subscripts(fn, later)
     return True
 
 
-def split_unknown_tuple_assigns(fn, known_sigs):
+def split_unknown_tuple_assigns(fn, known_sigs, known_names=frozenset()):
     """`a, b = e1, e2` whose targets are all locals without counterpart in the reference tree and whose right-hand sides do not
     mention any of the targets becomes `a = e1; b = e2` (same values: nothing the right-hand sides read is rebound in between)."""
     sg, _ = signatures(fn)
@@ -438,7 +454,7 @@ def split_unknown_tuple_assigns(fn, known_sigs):
                     and len(st.targets[0].elts) == len(st.value.elts) and all(isinstance(e, ast.Name) for e in st.targets[0].elts):
                 names = [e.id for e in st.targets[0].elts]
                 mentioned = {m.id for v in st.value.elts for m in ast.walk(v) if isinstance(m, ast.Name)}
-                if all(x in sg and sg[x][0] not in known_sigs for x in names) and not (set(names) & mentioned) and all(_pure(v) for v in st.value.elts):
+                if all(x in sg and sg[x][0] not in known_sigs and x not in known_names for x in names) and not (set(names) & mentioned) and all(_pure(v) for v in st.value.elts):
                     new = [ast.copy_location(ast.Assign(targets=[ast.Name(id=x, ctx=ast.Store())], value=v), st) for x, v in zip(names, st.value.elts)]
                     body[i:i + 1] = new
                     n += 1
@@ -492,6 +508,23 @@ def desugar_unknown_enumerate(fn, known_sigs):
                                              keywords=[]), lp.iter)
         done.append(x)
     return done
+
+
+def _merge_row_subscripts(fn, node):
+    """After a row temporary `a = X[j]` was read back, `X[j][k]` is written `X[j, k]` when j is the variable of a
+    `for j in range(...)` loop (an integer, so both forms address the same element of a numpy array / tensor)."""
+    range_vars = {l.target.id for l in ast.walk(fn) if isinstance(l, ast.For) and isinstance(l.target, ast.Name)
+                  and isinstance(l.iter, ast.Call) and isinstance(l.iter.func, ast.Name) and l.iter.func.id == 'range'}
+
+    class M(ast.NodeTransformer):
+        def visit_Subscript(self, n):
+            self.generic_visit(n)
+            v = n.value
+            if isinstance(v, ast.Subscript) and isinstance(v.slice, ast.Name) and v.slice.id in range_vars \
+                    and isinstance(v.value, ast.Name) and not isinstance(n.slice, (ast.Tuple, ast.Slice)):
+                return ast.copy_location(ast.Subscript(value=v.value, slice=ast.Tuple(elts=[v.slice, n.slice], ctx=ast.Load()), ctx=n.ctx), n)
+            return n
+    M().visit(node)
 
 
 def inline_unknown_helpers(tree, rel, tb):
@@ -561,12 +594,12 @@ def normalise(rel, tree, kwnames=frozenset()):
         if pm:
             applied.append((qual, dict(pm)))
         known = {d for d, k, x in ref['locals']}
-        split_unknown_tuple_assigns(fn, known)
+        split_unknown_tuple_assigns(fn, known, {x for d, k, x in ref['locals']})
         en = desugar_unknown_enumerate(fn, known)
         if en:
             ast.fix_missing_locations(fn)
             applied.append((qual, {t: '(enumerate loop read as an index loop)' for t in en}))
-        inl = inline_unknown_temporaries(fn, known)
+        inl = inline_unknown_temporaries(fn, known, {x for d, k, x in ref['locals']})
         if inl:
             ast.fix_missing_locations(fn)
             applied.append((qual, {t: '(inlined temporary)' for t in inl}))
